@@ -223,3 +223,25 @@ def send_future_programs():
             rb, db = render(b)
             progs.append(Prog("sendfuture/%s=%s/%s" % (a, b, "".join(map(str, ds))), ra, rb, [[0]], "Value", pre=pre, meta={"macro": b, "dsl": "need_send(%s)" % db, "ref": "need_send(%s)" % da}))
     return progs
+
+
+def no_runtime_programs():
+    """a task-spawning macro spawns only in steps with more than one active branch: a program whose steps all have ONE active branch
+    needs no tokio runtime at all — driven by a plain executor (no runtime context anywhere) it agrees with the plain macro"""
+    progs = []
+    for a, b in (("join_async", "join_async_spawn"), ("join_async", "async_spawn"), ("try_join_async", "try_join_async_spawn"), ("try_join_async", "try_async_spawn")):
+        for d in (1, 2, 3):
+            for handler in (False, True):
+                def render(m):
+                    is_try = m.startswith("try")
+                    t = "ready(Ok::<i32, i32>(7))" if is_try else "ready(7)"
+                    for k in range(1, d):
+                        t += (" ~=> |v: i32| ready(Ok::<i32, i32>(v + %d))" % k) if is_try else (" ~|> |v: i32| v + %d" % k)
+                    if handler:
+                        t += ", map => |v: i32| v * 2" if is_try else ", then => |v: i32| async move { v * 2 }"
+                    d_ = "%s! { %s }" % (m, t)
+                    return "let x = futures::executor::block_on(%s);\nformat!(\"{:?}\", x)" % d_, d_
+                ra, da = render(a)
+                rb, db = render(b)
+                progs.append(Prog("noruntime/%s=%s/%d/%d" % (a, b, d, handler), ra, rb, [[0]], "Value", meta={"macro": b, "dsl": db, "ref": da}))
+    return progs
